@@ -129,8 +129,9 @@ func SimpleServices(t *rapid.T) []Service {
 		nv := rapid.IntRange(0, 2).Draw(t, "nvalues")
 		for j := 0; j < nv; j++ {
 			s.SetValues = append(s.SetValues, Value{
-				Name:     rapid.SampledFrom([]string{"priv-lvl", "local-user-name", "shell:roles"}).Draw(t, "val_name"),
-				Values:   []string{rapid.SampledFrom([]string{"15", "admin", "network-admin vdc-admin", "1"}).Draw(t, "val")},
+				Name: rapid.SampledFrom([]string{"priv-lvl", "local-user-name", "shell:roles"}).Draw(t, "val_name"),
+				// the last two cannot go on the wire as an argument (longer than 255 octets, not US-ASCII)
+				Values:   []string{rapid.SampledFrom([]string{"15", "admin", "network-admin vdc-admin", "1", "15", "admin", strings.Repeat("v", 300), "gr\u00fc\u00df dich"}).Draw(t, "val")},
 				Optional: rapid.Bool().Draw(t, "val_opt"),
 			})
 		}
